@@ -15,7 +15,10 @@ Definition amv (n : string) (multi auto : bool) (var : string) (g dp voa : optio
   Amp (mkAmp n multi auto var g dp voa).
 Definition ln (sk : ekind) (src : string) (bands : Z) (dk : ekind) (dst : string) (dst_first : bool)
   (els : list elem) : line := mkLine sk src bands dk dst dst_first els.
-Definition cf (mx padlen : Z) (pad cin cout eol : Q) : cfg := mkCfg mx padlen pad cin cout eol.
+Fixpoint qlookup (k : string) (l : list (string * Q)) : Q :=
+  match l with [] => 0%Q | (k', v) :: t => if String.eqb k k' then v else qlookup k t end.
+Definition cf (mx padlen : Z) (pad cin cout eol : Q) (rg : list (string * Q)) : cfg :=
+  mkCfg mx padlen pad cin cout eol (fun k => qlookup k rg).
 
 Definition el_s (e : elem) : string :=
   match e with
